@@ -270,4 +270,80 @@ PROPS = {
         "level_note": "Trusted: derivation generator; the contiguity checker maps returned tokens "
                       "back to argv positions (tokens are unique per line).",
     },
+    "C11": {
+        "cases": {"quick": 480, "thorough": 8000},
+        "rule": "Per case one random definition compiled into the harness executable; the harness "
+                "re-executes itself with argv[0] chosen freely (plain, path, non-ASCII, non-UTF-8 "
+                "file name) and the vector (sentences, hostile values, byte noise incl. invalid "
+                "UTF-8, help/version/completion requests) passed through the OS; the child calls "
+                "OptionParser::run(). Parent prediction from run_inner(Args::from(argv)"
+                ".set_name(file name)): status, stdout bytes, stderr bytes, sentinel iff value. "
+                + DISTINCT,
+        "assumptions": COMMON_ASSUMPTIONS + [
+            "NUL bytes cannot be passed through the OS and are stripped from vectors.",
+            "Short help (-h) at a non-default max_width cannot be predicted through the public "
+            "API (Display always renders the full form) and is counted as inconclusive.",
+            "--bpaf-complete-style-* (static stubs, process exits by design) is exercised by C15.",
+        ],
+        "must_observe": ["class:value", "class:stdout", "class:stderr", "class:completion",
+                         "argv0:non-utf8"],
+        "max_inconclusive_ratio": 0.2,
+        "technique": "runtime monitoring at the process boundary: real child processes observed "
+                     "(exit status, both streams) against an in-process prediction",
+        "level_text": "Held on the child processes observed: status, stdout and stderr matched "
+                      "the prediction byte for byte and the program body was reached iff a value "
+                      "was produced.",
+        "level_note": "Trusted: the child rebuilds the same definition from (seed, case) "
+                      "coordinates; prediction uses bpaf's own Doc rendering (Display/monochrome).",
+    },
+    "C18": {
+        "cases": {"quick": 960, "thorough": 48000},
+        "rule": "Per case one random definition whose flags/arguments declare environment "
+                "variables (1-2 per item, some items environment-only) under every wrapper, at "
+                "root and inside a command. Rounds: (A) random valid environment state x a "
+                "derivation that knows the state (line beats variable, variable beats default, "
+                "flags count as present when the variable is set, even empty); the same line with "
+                "undeclared variables set must give the identical outcome; (B) an invalid value "
+                "in the variable of an item absent from the line must fail with the conversion "
+                "message; (C) a plain required item with item and variable absent must fail "
+                "naming the item or the variable. Every 8th case is repeated in a child process "
+                "whose environment comes from the OS. " + DISTINCT,
+        "assumptions": COMMON_ASSUMPTIONS + [
+            "Shard processes are single-threaded, so set_var/remove_var between cases is safe.",
+        ],
+        "must_observe": ["class:line+environment", "line_and_variable(precedence)",
+                         "variable_only(fallback)", "class:invalid-variable-value",
+                         "class:item-and-variable-absent", "child-processes"],
+        "needs_hooks": True,
+        "technique": "runtime monitoring: derivation-directed oracle over (line, environment) "
+                     "pairs + metamorphic oracle for undeclared variables + child processes with "
+                     "OS-provided environment",
+        "level_text": "Held on the executions observed.",
+        "level_note": "Trusted: derivation generator's model of the documented precedence.",
+    },
+    "C13": {
+        "cases": {"quick": 160, "thorough": 8000},
+        "rule": "Per case one random definition whose help/description/header/footer strings come "
+                "from a grammar (1-3 paragraphs with markers, hard line breaks, indented code "
+                "blocks, words of 1-200 characters, non-ASCII, tabs and control characters, long "
+                "and lower-case metavariables). Documents: help of the root and of commands "
+                "(short and full) and error documents for noise vectors with very long items. "
+                "Each Doc is rendered at every width 1..=300 and unwrapped (width 60000); "
+                "evaluations counts renderings. distinct_nontrivial = distinct (definition, "
+                "vector, width) triples with a non-empty document.",
+        "assumptions": COMMON_ASSUMPTIONS + [
+            "Width is counted in characters (chars), as bpaf does; East Asian wide characters are "
+            "not given double width.",
+            "A long line is allowed when it is a code line of a generated help text, a single "
+            "word after its indentation, or a known definition term followed by one word.",
+        ],
+        "must_observe": ["renderings", "doc:help", "doc:error", "short-help-texts-checked",
+                         "overlong:single-word(allowed)"],
+        "technique": "runtime monitoring: differential oracle between renderings of the same Doc "
+                     "(wrapped vs unwrapped, whitespace-insensitive) + line classifier + "
+                     "paragraph-marker check of the short form",
+        "level_text": "Held on the renderings observed: 300 widths per document.",
+        "level_note": "Trusted: the unwrapped rendering as the reference for content (it is "
+                      "produced by the same renderer with an unreachable width).",
+    },
 }
